@@ -759,6 +759,20 @@ def oracle(ctx, scale):
                     amp=a if inside else None, amp_tol=atol if inside else None)
         ctx.count("oracle_fn_square" if nr == nc else "oracle_fn_half")
         ctx.count("oracle_fn_level_below_1e-12" if level < 1e-12 else "oracle_fn_level_other")
+        # the selected frequency as a user writes it: a whole number of Hz as a Python int or an integer array - the pick (a grid
+        # line, in general not a whole number) and the shape are those of the same number written as a float
+        si = int(round(sel))
+        if 1 <= si and si + DF < freq[-1]:
+            ctx.oracle_cases += 1
+            ctx.count("oracle_fn_selected_frequency_written_as_integer")
+            Ff, Pf = fdd.FDD_mpe(Sval, Svec, freq, [float(si)], DF=DF)
+            for form, arg in (("list of int", [si]), ("integer array", np.array([si])), ("numpy integer", [np.int64(si)])):
+                Fi, Pi = fdd.FDD_mpe(Sval, Svec, freq, arg, DF=DF)
+                if not (np.asarray(Fi, dtype=float).shape == np.asarray(Ff, dtype=float).shape and np.array_equal(np.asarray(Fi, dtype=float), np.asarray(Ff, dtype=float))
+                        and np.array_equal(np.asarray(Pi), np.asarray(Pf), equal_nan=True)):
+                    ctx.violation("pick-depends-on-argument-form", f"FDD_mpe with the selected frequency {si} Hz given as {form} returns {np.asarray(Fi).tolist()} "
+                                  f"instead of the grid line {np.asarray(Ff).tolist()} returned for {float(si)}", inp | {"sel": si, "form": form})
+                    break
     # (2) through the algorithm classes: two narrow-band responses, selected frequencies in arbitrary order,
     # data in arbitrary units (gain), the same object asked twice
     for it in range(ctx.n(24, 240) * scale):
